@@ -12,7 +12,9 @@ CONSTANTS MaxTok, Tokens, EmitOn
 VARIABLES b, n
 vars == <<b, n>>
 
-E10 == {<<226>>, <<128>>, <<185>>, <<186>>, <<97>>, <<SP>>, <<NL>>, <<Q>>, StartM, EndM, RuneErrorBytes, <<194, 186>>}
+\* (184 and 187: the last bytes of the code points next to the markers, U+2038 and U+203B -- a comparison that is too
+\*  generous about the third byte escapes those as well)
+E10 == {<<226>>, <<128>>, <<185>>, <<186>>, <<97>>, <<SP>>, <<NL>>, <<Q>>, StartM, EndM, RuneErrorBytes, <<194, 186>>, <<184>>, <<187>>}
 E7  == {<<226>>, <<128>>, <<185>>, <<97>>, <<NL>>, StartM, EndM}
 
 Init == b = <<>> /\ n = 0
